@@ -8,6 +8,7 @@ CONSTANTS
   MaxFaults = 1
   Victims = {r1}
   UniqueIds = TRUE
+  CleanCut = FALSE
 SPECIFICATION Spec
 CHECK_DEADLOCK FALSE
 PROPERTIES Answered KeepsPolling ExactlyOnce
